@@ -1,100 +1,88 @@
-import AndaVerif.Proofs.TxExec
+import AndaVerif.Proofs.TxKeys
+import AndaVerif.Proofs.TxSched
 /-
 C17 — A KML statement is all-or-nothing and versions each element once.
 
-All theorems are about `AndaVerif.Tx.exec`, the model of `kml::execute` running the commit order
-generated from the current source (`Gen.NexusOrder`), and hold for every well-formed store
-(`WF`: ids at or above a collection's next id are free — `init_WF`, `exec_WF`), every statement
-(any number of clauses, forward references, hits and misses, guards, `bad` clauses at any
-position) and every history.
+All theorems are about `AndaVerif.Tx.exec`, the model of `kml::execute` running the commit order,
+the abort / discard placement and the ENSURE lookup order generated from the current source
+(`Gen.NexusOrder`), and hold for every well-formed store (`WF`: ids at or above a collection's next
+id are free — `init_WF`, `exec_WF`), every statement (any number of clauses, forward references,
+hits and misses, guards, `bad` clauses at any position) and every history.
 -/
 namespace AndaVerif.Tx
 
-/-- what a reader can reach: every row that is not a `pending` shell, the journal, the version log -/
-def ObsEq (a b : Store) : Prop :=
-  (∀ i, visible (a.elems i) = visible (b.elems i)) ∧ a.journal = b.journal ∧ a.vlog = b.vlog
-
-/-- the same including `pending` rows (what `{state: "pending"}` / `{state: ?s}` patterns reach) -/
+/-- everything a query, a META command or a historical read can reach — `pending` rows included
+(a pattern that names `state` reaches them) — plus the journal and the version log -/
 def RawEq (a b : Store) : Prop :=
   (∀ i, a.elems i = b.elems i) ∧ a.journal = b.journal ∧ a.vlog = b.vlog
 
-def refusedBeforeWrite : Outcome → Prop
-  | .refusedPlan _ => True
-  | .refusedCheck _ => True
-  | _ => False
+def Outcome.refusedBeforeWrite : Outcome → Bool
+  | .refusedPlan _ | .refusedCheck _ => true
+  | _ => false
 
-/-- A statement refused while planning (validation of a clause, a failed `EXPECT`, an unknown
-handle, an identity conflict found by a lookup) leaves **nothing**: the element collections, the
-journal and the version log are exactly what they were; only the Space sequence skipped. -/
-theorem refused_at_planning_leaves_no_trace (s : Store) (hwf : WF s) (st : Stmt) (e : Err)
-    (h : (exec s st).2 = .refusedPlan e) : RawEq (exec s st).1 s ∧ (exec s st).1.seq = s.seq + 1 :=
-  have := exec_refusedPlan hwf st e h
-  ⟨⟨this.1, this.2.1, this.2.2.1⟩, this.2.2.2⟩
+theorem exec_WF (s : Store) (hwf : WF s) (st : Stmt) : WF (exec s st).1 := (exec_spec hwf st).wf
 
+/-- A statement refused while planning (validation of a clause, a failed `EXPECT`, an unresolved
+handle, an identity conflict found by a lookup) or by any pre-commit check (governance
+propagation, reference closure, key identity — the conflicts only detectable at commit) leaves
+the element collections, the journal and the version log **exactly** as they were; only the Space
+sequence skipped one number. -/
+theorem refused_is_noop (s : Store) (hwf : WF s) (st : Stmt) (h : (exec s st).2.refusedBeforeWrite = true) :
+    RawEq (exec s st).1 s ∧ (exec s st).1.seq = s.seq + 1 := by
+  cases ho : (exec s st).2 with
+  | refusedPlan e =>
+      have := exec_refused hwf st e (.inl ho)
+      exact ⟨⟨this.1, this.2.1, this.2.2.1⟩, this.2.2.2⟩
+  | refusedCheck e =>
+      have := exec_refused hwf st e (.inr ho)
+      exact ⟨⟨this.1, this.2.1, this.2.2.1⟩, this.2.2.2⟩
+  | refusedWrite e w => rw [ho] at h; cases h
+  | dryRun c => rw [ho] at h; cases h
+  | done a b c => rw [ho] at h; cases h
+
+/-- refused at its last clause, after two shells were minted -/
 example : (exec Store.init { dry := false, clauses := [.createConcept 1 1 1 1 false, .createConcept 2 1 2 2 true] }).2
     = .refusedPlan .invalid := by decide
 
-/-- A statement refused while planning or by any pre-commit check leaves every non-`pending`
-element, the journal and the version log exactly as they were; only the Space sequence skipped. -/
-theorem refused_is_noop (s : Store) (hwf : WF s) (st : Stmt) (h : refusedBeforeWrite (exec s st).2) :
-    ObsEq (exec s st).1 s ∧ (exec s st).1.seq = s.seq + 1 := by
-  cases ho : (exec s st).2 with
-  | refusedPlan e =>
-      have := exec_refusedPlan hwf st e ho
-      exact ⟨⟨fun i => by rw [this.1 i], this.2.1, this.2.2.1⟩, this.2.2.2⟩
-  | refusedCheck e =>
-      have := exec_refusedCheck hwf st e ho
-      exact ⟨⟨this.1, this.2.1, this.2.2.1⟩, this.2.2.2⟩
-  | refusedWrite e w => rw [ho] at h; exact absurd h id
-  | dryRun c => rw [ho] at h; exact absurd h id
-  | done a b c => rw [ho] at h; exact absurd h id
-
-/-- two Concepts of one type claiming one key in one block: refused by the key-identity check at commit -/
+/-- two Concepts of one type claiming one key in one block: only the key-identity check at commit sees it.
+(Before repo commit 17643c8 this left both shells behind in state `pending`, visible to
+`{state: "pending"}` patterns — finding F-C17-1; corpus/C17/f1_*.ops.) -/
 def stmtKeyClash : Stmt := { dry := false, clauses := [.createConcept 1 1 7 1 false, .createConcept 2 1 7 2 false] }
-example : (exec Store.init stmtKeyClash).2 = .refusedCheck .identityConflict := by decide
+example : (exec Store.init stmtKeyClash).2 = .refusedCheck .identityConflict ∧
+    (exec Store.init stmtKeyClash).1.elems ⟨.concept, 1⟩ = none ∧
+    (exec Store.init stmtKeyClash).1.elems ⟨.concept, 2⟩ = none := by decide
 
-/-- The full-strength reading over the raw collections — every row a pattern with an explicit
-`state` can reach, `pending` included — for *every* refusal. -/
-def Outcome.refused : Outcome → Bool
-  | .refusedPlan _ | .refusedCheck _ | .refusedWrite _ _ => true
-  | _ => false
+/-- If planning succeeded and the pre-commit checks passed, no `put` of the write loop is refused
+(neither by a missing row nor by the unique `tuple_key` index): the loop can only be interrupted by
+a storage fault.  Holds on every store in which a tuple names one Proposition (`TInv`, an invariant
+of every history: `tuple_unique`) — hence a refusal never leaves a partial commit. -/
+theorem precommit_implies_writes_succeed (s : Store) (hwf : WF s) (ht : TInv s) (st : Stmt) (e : Err) (w : List Change) :
+    (exec s st).2 ≠ .refusedWrite e w :=
+  exec_no_refusedWrite hwf ht st e w
 
-def refused_is_noop_full : Prop :=
-  ∀ (s : Store), WF s → ∀ (st : Stmt), (exec s st).2.refused = true → RawEq (exec s st).1 s
+/-- … and therefore **every** refusal, along every history, leaves everything exactly as it was. -/
+theorem refused_is_noop_history (l : List Stmt) (st : Stmt)
+    (h : ∀ q status w, (exec (run Store.init l) st).2 ≠ .done q status w) (hd : ∀ cs, (exec (run Store.init l) st).2 ≠ .dryRun cs) :
+    RawEq (exec (run Store.init l) st).1 (run Store.init l) := by
+  have hwf := (run_spec init_WF l).1
+  have ht := run_TInv init_WF init_TInv l
+  cases ho : (exec (run Store.init l) st).2 with
+  | refusedPlan e => exact (refused_is_noop _ hwf st (by rw [ho]; rfl)).1
+  | refusedCheck e => exact (refused_is_noop _ hwf st (by rw [ho]; rfl)).1
+  | refusedWrite e w => exact absurd ho (exec_no_refusedWrite hwf ht st e w)
+  | dryRun cs => exact absurd ho (hd cs)
+  | done q status w => exact absurd ho (h q status w)
 
-/-- It is false of the code, in two ways (both replayed on the implementation, notes/C17.md):
-a refusal by a pre-commit check leaves the statement's `pending` shells behind (F-C17-1) … -/
-theorem refused_is_noop_full_counterexample_shells :
-    (exec Store.init stmtKeyClash).2 = .refusedCheck .identityConflict ∧
-    ((exec Store.init stmtKeyClash).1.elems ⟨.concept, 1⟩).isSome = true ∧
-    (Store.init.elems ⟨.concept, 1⟩).isSome = false := by decide
-
-/-- … and two `ENSURE PROPOSITION` of one tuple in one block pass every pre-commit check and then
-collide on the unique `tuple_key` index inside the write loop, after the Concepts and the first
-Proposition have been written and logged (F-C17-2). -/
-def stmtTupleClash : Stmt :=
+/-- the same tuple ensured twice in one block: the second ENSURE binds the row the first one staged.
+(Before repo commit a16af0f both were staged, the second `put` failed on the unique index and the
+statement was refused with both Concepts and the first Proposition written — finding F-C17-2;
+corpus/C17/f2_*.ops.) -/
+def stmtTupleTwice : Stmt :=
   { dry := false, clauses := [.createConcept 1 1 1 1 false, .createConcept 2 2 2 2 false,
       .ensure (some 3) (.h 1) 5 (.h 2) none false, .ensure (some 4) (.h 1) 5 (.h 2) none false] }
-
-theorem refused_is_noop_full_counterexample_partial_commit :
-    (exec Store.init stmtTupleClash).2 =
-      .refusedWrite .unique [⟨⟨.concept, 1⟩, .create, 1⟩, ⟨⟨.concept, 2⟩, .create, 1⟩, ⟨⟨.proposition, 1⟩, .create, 1⟩] ∧
-    visible ((exec Store.init stmtTupleClash).1.elems ⟨.concept, 1⟩) ≠ visible (Store.init.elems ⟨.concept, 1⟩) ∧
-    (exec Store.init stmtTupleClash).1.vlog.length = 3 ∧ (exec Store.init stmtTupleClash).1.journal = [] := by
-  decide
-
-theorem refused_is_noop_full_false : ¬ refused_is_noop_full := by
-  intro h
-  have := (h Store.init init_WF stmtKeyClash (by decide)).1 ⟨.concept, 1⟩
-  revert this; decide
-
-/-- "If the three pre-commit checks pass, no logical failure can occur inside the write loop." -/
-def precommit_implies_writes_succeed_full : Prop :=
-  ∀ (s : Store), WF s → ∀ (st : Stmt) (e : Err) (w : List Change), (exec s st).2 ≠ .refusedWrite e w
-
-theorem precommit_implies_writes_succeed_counterexample : ¬ precommit_implies_writes_succeed_full := by
-  intro h
-  exact h Store.init init_WF stmtTupleClash .unique _ refused_is_noop_full_counterexample_partial_commit.1
+example : (exec Store.init stmtTupleTwice).2 =
+    .done 1 .committed [⟨⟨.concept, 1⟩, .create, 1⟩, ⟨⟨.concept, 2⟩, .create, 1⟩, ⟨⟨.proposition, 1⟩, .create, 1⟩] ∧
+    (exec Store.init stmtTupleTwice).1.elems ⟨.proposition, 2⟩ = none := by decide
 
 /-- A dry run never changes anything (raw collections included); only the Space sequence skips. -/
 theorem dry_run_is_noop (s : Store) (hwf : WF s) (st : Stmt) (hd : st.dry = true) :
@@ -106,6 +94,21 @@ theorem dry_run_is_noop (s : Store) (hwf : WF s) (st : Stmt) (hd : st.dry = true
 example : (exec Store.init { dry := true, clauses := [.createConcept 1 1 1 1 false] }).2
     = .dryRun [⟨⟨.concept, 1⟩, .create, 1⟩] := by decide
 
+/-- A statement that commits gets exactly the next sequence, adds one journal row carrying it
+(`no_effect` iff nothing changed), lists every changed element once, stores each of them at the
+version of its change record with the commit's sequence — `1` for a created element, exactly the
+old version `+ 1` for an element that existed, however many clauses touched it — writes nothing
+else, and appends exactly one version row per change. -/
+theorem commit_versions_once (s : Store) (hwf : WF s) (st : Stmt) (q : Nat) (status : JStatus) (w : List Change)
+    (h : (exec s st).2 = .done q status w) : DoneSpec s st q status w :=
+  exec_done hwf st q status w h
+
+/-- three clauses touch one element: one bump, one change record, one version row -/
+def storeOne : Store := (exec Store.init { dry := false, clauses := [.createConcept 1 1 1 1 false] }).1
+example : (exec storeOne { dry := false, clauses := [.update (.id ⟨.concept, 1⟩) 3 none false,
+      .update (.id ⟨.concept, 1⟩) 4 (some 1) false, .setState (.id ⟨.concept, 1⟩) .archived none] }).2
+    = .done 2 .committed [⟨⟨.concept, 1⟩, .archive, 2⟩] := by decide
+
 /-- Every statement — committed, without effect, dry or refused — takes exactly the next Space
 sequence; a journal row is added only by a commit and carries that sequence. -/
 theorem seq_fresh (s : Store) (hwf : WF s) (st : Stmt) :
@@ -115,5 +118,66 @@ theorem seq_fresh (s : Store) (hwf : WF s) (st : Stmt) :
         (exec s st).1.journal = { seq := s.seq + 1, status := if w.isEmpty then .noEffect else .committed,
                                   changes := w, time := st.time } :: s.journal) :=
   exec_seq_journal hwf st
+
+/-- Along every history the journal's sequences are strictly increasing (the list is newest first)
+and never above the Space sequence, which counts the statements executed. -/
+theorem seq_fresh_monotone (l : List Stmt) :
+    (run Store.init l).journal.Pairwise (fun a b => b.seq < a.seq) ∧
+    (∀ e ∈ (run Store.init l).journal, e.seq ≤ (run Store.init l).seq) ∧ (run Store.init l).seq = l.length := by
+  have h := run_JInv init_WF init_JInv l
+  have h2 := (run_spec init_WF l).2.1
+  exact ⟨h.2, h.1, by rw [← h2]; simp [Store.init]⟩
+
+/-- The same proposition tuple always resolves to one element: in every store a history reaches, two
+Proposition rows never carry one tuple, so `find_proposition` returns *the* row. -/
+theorem tuple_unique (l : List Stmt) : TInv (run Store.init l) := run_TInv init_WF init_TInv l
+
+theorem tuple_resolves_to_one (l : List Stmt) (t : Id × Nat × Id) (i : Id)
+    (h : findProposition (run Store.init l) t = some i) (j : Id) (ej : Elem) (hj : j.kind = .proposition)
+    (hej : (run Store.init l).elems j = some ej) (htup : ej.row.tup = some t) : j = i :=
+  findProposition_unique (tuple_unique l) t i h j ej hj hej htup
+
+example : findProposition (exec Store.init stmtTupleTwice).1 (⟨.concept, 1⟩, 5, ⟨.concept, 2⟩) = some ⟨.proposition, 1⟩ := by
+  decide
+
+/-- A logical key identifies at most one Concept of a type: along every history two Concept rows
+(whatever their state) of one type never carry one non-empty key — this is what the key-identity
+check at commit, with its `claimed` list and its store lookup, guarantees. -/
+theorem key_identifies_one (l : List Stmt) : KeyInv (run Store.init l) :=
+  run_KeyInv init_WF init_TInv init_KeyInv l
+
+/-- a second Concept of the type with the key is refused at commit; the first one stays alone -/
+example : (exec (exec Store.init { dry := false, clauses := [.createConcept 1 1 7 1 false] }).1
+      { dry := false, clauses := [.createConcept 1 1 7 2 false] }).2 = .refusedCheck .identityConflict := by decide
+
+/-- An element that existed is never reported (nor versioned) as a creation. -/
+theorem create_is_fresh (s : Store) (hwf : WF s) (st : Stmt) (q : Nat) (status : JStatus) (w : List Change)
+    (h : (exec s st).2 = .done q status w) (c : Change) (hc : c ∈ w) (hop : c.op = .create) : s.elems c.id = none :=
+  exec_done_create_fresh hwf st q status w h c hc hop
+
+open AndaVerif.TxSched AndaVerif.Sched in
+/-- Readers never observe a statement in part: for every set of threads — writers whose statement
+is cut into atomic steps in any way, KQL and META readers — and **every schedule**, each store a
+reader saw is a statement boundary, and the boundaries are the initial store followed by whole
+statements applied one after the other.  (The lock sides are the ones `Session::execute` takes:
+`gen_locks`.) -/
+theorem no_partial_read {σ : Type} (c0 : Cfg σ) (h0 : Initial c0) (sched : List Nat) :
+    (∀ t th x, (runSchedule TxSched.step sched c0).threads t = some th → th.seen = some x →
+        x ∈ (runSchedule TxSched.step sched c0).bounds) ∧
+    Chain c0 (runSchedule TxSched.step sched c0).bounds ∧
+    (runSchedule TxSched.step sched c0).bounds.getLast? = some c0.st :=
+  have h := run_inv c0 h0 sched
+  ⟨h.seen, h.chain, h.last⟩
+
+open AndaVerif.TxSched AndaVerif.Sched in
+/-- a writer cut into two steps and a reader: under the schedule "writer acquires, reader tries,
+writer steps, reader tries, writer steps, releases, reader acquires and reads" the reader sees 2 -/
+example :
+    let w : Thread Nat := { role := .writer, orig := [(· + 1), (· + 1)], rem := [(· + 1), (· + 1)], pc := 0, seen := none }
+    let r : Thread Nat := { role := .reader, orig := [], rem := [], pc := 0, seen := none }
+    let c0 : Cfg Nat := { st := 0, xholder := none, holders := [], bounds := [0],
+                          threads := fun t => if t = 0 then some w else if t = 1 then some r else none }
+    ((runSchedule TxSched.step [0, 1, 0, 1, 0, 0, 1, 1] c0).threads 1).bind (·.seen) = some 2 := by
+  decide
 
 end AndaVerif.Tx
